@@ -49,6 +49,17 @@ func (cp *CollectingProcess) startUDPServer() {
 			ExtendedMasterSecret: dtls.RequireExtendedMasterSecret,
 			ClientCAs:            certPool,
 		}
+		if cp.caCert != nil {
+			// As for TLS, when a CA certificate is provided, clients must present a
+			// certificate issued by that CA.
+			clientCAs := x509.NewCertPool()
+			if ok := clientCAs.AppendCertsFromPEM(cp.caCert); !ok {
+				klog.Error("failed to parse root certificate")
+				return
+			}
+			config.ClientAuth = dtls.RequireAndVerifyClientCert
+			config.ClientCAs = clientCAs
+		}
 		listener, err = dtls.Listen("udp", address, config)
 		if err != nil {
 			klog.Error(err)
